@@ -89,9 +89,10 @@ func runCook(c *ctx) {
 		{true, ".example.com", true, config.SameSiteNone, "https://sso.example.com"},
 		{true, "example.com", true, config.SameSiteStrict, "https://login.sso.example.com"},
 	}
-	for _, cc := range cfgs {
+	for ci, cc := range cfgs {
 		cc := cc
-		o := sutOpts{ingresses: []string{cc.ingress}, secure: cc.secure, sidRequired: true, legacyCookie: r.chance(1, 3), tweak: func(cfg *config.Config) { cfg.Cookie.SameSite = cc.sameSite }}
+		o := sutOpts{ingresses: []string{cc.ingress}, secure: cc.secure, sidRequired: true, legacyCookie: ci%3 == 1, // deterministic: the legacy flag is always exercised (known finding F7)
+ tweak: func(cfg *config.Config) { cfg.Cookie.SameSite = cc.sameSite }}
 		if cc.sso {
 			o.mode, o.ssoDomain, o.ssoDefaultURL = "sso-server", cc.domain, "https://app.example.com/"
 			cookie.ConfigureCookieNamesWithPrefix("sso.session")
